@@ -7,10 +7,12 @@ import (
 	"time"
 
 	gerrors "github.com/acquirecloud/golibs/errors"
+	"github.com/acquirecloud/golibs/kvs"
 	dist "github.com/acquirecloud/golibs/kvs/distlock"
 	"github.com/acquirecloud/golibs/kvs/inmem"
 	"github.com/acquirecloud/golibs/timeout"
 	"github.com/acquirecloud/golibs/zverif/vsched"
+	"verifh/internal/kvh"
 )
 
 // LeaseScenario is one of the three C05 scenario families.
@@ -22,9 +24,22 @@ type LeaseScenario struct {
 	DiePhase    float64 // lapse: death at (1+DiePhase) renewal periods after acquisition; <0: pseudo thread (any point)
 	SameLocker  bool    // diesout: second tenure on the same Locker
 	TwoWaiters  bool    // lapse: a first waiter that gives up before the lease lapses, a second one that stays
+	Storage     string  // "" (kvs/inmem) or "redis" (kvs/redis over miniredis on the virtual clock, polling waiters)
+	CtxEnds     bool    // kept: the holder acquires with LockWithCtx and that context is cancelled a fifth of a lease later; the storage honours contexts
 }
 
 func (sc *LeaseScenario) String() string {
+	s := sc.str()
+	if sc.Storage == "redis" {
+		s = "redis " + s
+	}
+	if sc.CtxEnds {
+		s += " acquisition-context-ends"
+	}
+	return s
+}
+
+func (sc *LeaseScenario) str() string {
 	switch sc.Kind {
 	case "handover":
 		return fmt.Sprintf("handover lease=%v first-tenure=%.1f leases", sc.Lease, sc.Holds)
@@ -75,10 +90,21 @@ func (sc *LeaseScenario) Build(obs *LeaseObs) func() {
 		idle := 30 * time.Second
 		timeout.VerifReset(10, idle)
 		dist.VerifSetLease(L)
-		st := inmem.New()
+		var st kvs.Storage = inmem.New()
+		inner := func() kvs.Storage { return st }
+		slack := time.Duration(0)
+		if sc.Storage == "redis" {
+			if redisBE == nil {
+				redisBE = kvh.NewRedis(true)
+			}
+			vsched.SetClockForward(redisBE.FastForward)
+			st = redisBE.Fresh()
+			inner = func() kvs.Storage { return redisBE.NewClient() }
+			slack = 70 * time.Millisecond // the Redis waiter polls, at most 64ms apart
+		}
 		var calls []string
 		mk := func(name string) (*Gate, dist.LockProvider) {
-			g := &Gate{Inner: st, Name: name, Calls: &calls}
+			g := &Gate{Inner: inner(), Name: name, Calls: &calls, HonourCtx: sc.CtxEnds}
 			return g, dist.NewKvsLockProvider(g, "/locks/")
 		}
 		gH, pH := mk("holder")
@@ -105,7 +131,20 @@ func (sc *LeaseScenario) Build(obs *LeaseObs) func() {
 			holding, unlocked, hdone, cdone, pdone := false, false, false, false, false
 			vsched.GoNamed("holder", func() {
 				defer func() { hdone = true }()
-				lkH.Lock()
+				if sc.CtxEnds {
+					hctx, hcancel := context.WithCancel(bg)
+					if err := lkH.LockWithCtx(hctx); err != nil {
+						obs.fail("kept:holder-error", "holder's LockWithCtx returned %v", err)
+						hcancel()
+						return
+					}
+					holding = true
+					vsched.Sleep(L / 5)
+					hcancel() // the lock is held; what the acquisition context does from now on is irrelevant to the tenure
+					vsched.Note("acquisition context cancelled at +%v", now())
+				} else {
+					lkH.Lock()
+				}
 				holding = true
 				vsched.Note("holder locked at +%v", now())
 				vsched.Sleep(time.Duration(sc.Holds * float64(L)))
@@ -288,7 +327,7 @@ func (sc *LeaseScenario) Build(obs *LeaseObs) func() {
 				if cdone {
 					return
 				}
-				vsched.Sleep(L + L/2 + time.Millisecond)
+				vsched.Sleep(L + L/2 + time.Millisecond + slack)
 				vsched.AwaitBlocked()
 				if !cdone && acquiredAt < 0 {
 					obs.fail("lapse:not-acquired", "holder died at +%v; at +%v (death + lease + one renewal period) the waiting contender still does not hold the lock", deathAt, now())
